@@ -148,7 +148,11 @@ def run_stream(state, stream, mode=0, file_backed=True):
         ae = applicationentity.ClientAE('VERIF')
         kw = dict(store_in_file=frozenset([convs.STORE_UID]), get_file_cb=ae.get_file,
                   accepted_contexts=contexts())
-    sim = simnet.Sim(role, actions, budget=6000 + 60 * len(actions) + 8 * len(stream), **kw)
+    # (a third of the cases with a small own maximum PDU length: reads of 48 bytes, and every ordinary P-DATA-TF of the
+    #  peer is longer than what this side announced - tolerated or refused, it is handled in an orderly way)
+    if (len(stream) + mode) % 3 == 1:
+        kw['max_pdu'] = 48
+    sim = simnet.Sim(role, actions, budget=6000 + 60 * len(actions) + 8 * len(stream) + (len(stream) // 6 if 'max_pdu' in kw else 0), **kw)
     sim.run()
     # state reached by the prefix (sanity of the harness, not of the library)
     snaps = [s for s in sim.snaps if s['next'] == n_prefix]
